@@ -74,6 +74,9 @@ pub fn scenarios(thorough: bool) -> Vec<Scenario> {
 }
 
 pub fn run(run: &Run) {
+    // the counts are part of the coin tree, hence of the header: batches whose members create and spend coins under one covenant
+    // hash with apply_tx_batch itself under loom (the header must be the sequential one under every interleaving)
+    crate::loomrun::stf_interleavings(run, "C20", &["chain", "chain-reversed", "independent", "shared-second-input"]);
     long_histories(run, run.thorough());
     // several withdrawals of one block settled against the same pool: several new coins at one address in one settlement
     crate::props::c15::user_pool_emptied_by_several_withdrawals(run, run.thorough());
